@@ -231,6 +231,20 @@ def csr_colls(case, ctx):
         if res.exit_code != 0:
             raise RuntimeError(f"cooler load exit {res.exit_code}: {res.output[-300:]} {res.exception!r}")
         uris.append(out)
+    elif kind == "empties":
+        # producers that never receive a pixel chunk, with a SECOND value column next to count
+        cols = ["count", "x"]
+        empty = gen.pixels_frame([], cols)
+        e1, e2, e3, e4, e5, e6 = (os.path.join(d, n) for n in ("e1.cool", "e2.cool", "e3.cool", "e4.cool", "e5.mcool", "e6.cool"))
+        cooler.create_cooler(e1, bins, iter([]), columns=cols, ordered=True, symmetric_upper=symm)           # no chunk at all
+        cooler.create_cooler(e2, bins, iter([empty]), columns=cols, ordered=True, symmetric_upper=symm)      # one empty chunk
+        cooler.create_cooler(e6, bins, empty, columns=cols, symmetric_upper=symm)                            # an empty frame
+        cooler.merge_coolers(e3, [e1, e2], mergebuf=case["mergebuf"], columns=cols)
+        uris += [e1, e2, e6, e3]
+        if case["fixed"]:
+            cooler.coarsen_cooler(e3, e4, case["k"], chunksize=case["chunk"], nproc=1, columns=cols)
+            cooler.zoomify_cooler(e2, e5, [case["binsize"] * 2, case["binsize"] * 4], chunksize=case["chunk"], columns=cols)
+            uris += [e4] + [e5 + "::" + p for p in cooler.fileops.list_coolers(e5)]
     else:
         raise ValueError(kind)
     return {"colls": _collect(uris)}
